@@ -78,3 +78,145 @@ def replay_models(pid, path):
 
 for _p in ("C01", "C02", "C03", "C04", "C05", "C06", "C07", "C15", "C17"):
     register(_p, run_models, replay_models)
+
+
+# ---------------------------------------------------------------- C20: determinism of model evaluation
+FORBIDDEN = ["HashMap", "HashSet", "RandomState", "Instant::", "SystemTime", "thread::", "as *const", "as *mut", "addr()", "rand::"]
+
+
+def scan_nondeterminism_sources():
+    """Supporting text scan: generated modules and non-test runtime code use no unordered container,
+    clock, thread or pointer-to-integer cast."""
+    import re
+    hits = []
+    files = []
+    gen = os.path.join(modelgen.GEN, "k")
+    for f in sorted(os.listdir(gen)):
+        if f.endswith(".eql.rs"):
+            files.append(os.path.join(gen, f))
+    rt = os.path.join(common.REPO, "eqlog-runtime", "src")
+    for root, _, fs in os.walk(rt):
+        for f in fs:
+            if f.endswith(".rs"):
+                files.append(os.path.join(root, f))
+    for path in files:
+        text = open(path).read()
+        cut = text.find("#[cfg(test)]")
+        if cut >= 0:
+            text = text[:cut]
+        for n, line in enumerate(text.splitlines(), 1):
+            code = line.split("//")[0]
+            for tok in FORBIDDEN:
+                if tok in code:
+                    # the documented raw-pointer use of IterMut is scheduling-independent: it stores a
+                    # pointer, never orders or hashes by it
+                    if tok in ("as *mut", "as *const") and "wbtree/map.rs" in path:
+                        continue
+                    hits.append((path, n, tok, line.strip()[:160]))
+    return files, hits
+
+
+def run_c20(pid, tier, seed):
+    t0 = time.time()
+    binary, infos = modelgen.build_models("k", modelgen.load_corpus("k"))
+    bad = [i for i in infos if not i["ok"]]
+    if bad:
+        raise common.MachineryError("corpus theories failed to build: " + "; ".join(i["name"] for i in bad))
+    outdir = os.path.join(common.BUILD, "out", f"c20-{os.getpid()}")
+    os.makedirs(outdir, exist_ok=True)
+    pad = {f"VERIF_PAD_{i}": "x" * 997 for i in range(120)}
+    depth = {"quick": "3", "thorough": "5"}[tier]
+    configs = [
+        ("plain", [], {}),
+        ("aslr-off", ["setarch", "-R"], {}),
+        ("padded-env+1-thread", [], dict(pad, RAYON_NUM_THREADS="1", MALLOC_ARENA_MAX="1", MALLOC_PERTURB_="165")),
+        ("aslr-off+padded+3-threads", ["setarch", "-R"], dict(pad, RAYON_NUM_THREADS="3", MALLOC_TOP_PAD_="1048576")),
+    ]
+    dumps = {}
+    res0 = None
+    for name, prefix, env in configs:
+        dump = os.path.join(outdir, name + ".tsv")
+        e = common.env_offline(dict(env, VERIF_DEPTH=depth))
+        os.makedirs(os.path.join(common.BUILD, "out"), exist_ok=True)
+        out = os.path.join(outdir, name + ".json")
+        p = subprocess.run(prefix + [binary, "C20", "--tier", tier, "--out", out, "--dump-transcripts", dump], env=e,
+                           stdout=subprocess.PIPE, stderr=subprocess.PIPE, timeout=4 * 3600)
+        if p.returncode != 0:
+            raise common.MachineryError(f"engine failed under configuration {name}: {p.stderr.decode()[-2000:]}")
+        with open(out) as f:
+            r = json.load(f)
+        if res0 is None:
+            res0 = r
+        with open(dump) as f:
+            dumps[name] = f.read().splitlines()
+    violations = list(res0.get("violations", []))
+    base = dumps["plain"]
+    compared = 0
+    for name in dumps:
+        if name == "plain":
+            continue
+        other = dumps[name]
+        compared += len(other)
+        if other == base:
+            continue
+        bm = {tuple(l.split("\t")[:2]): l for l in base}
+        diffs = []
+        for l in other:
+            k = tuple(l.split("\t")[:2])
+            if bm.get(k) != l:
+                diffs.append((l, bm.get(k)))
+        if len(other) != len(base) and not diffs:
+            diffs.append((f"{len(other)} explored histories", f"{len(base)} explored histories"))
+        diffs.sort(key=lambda d: len(d[0]))
+        l, b = diffs[0]
+        parts = l.split("\t")
+        violations.append({"sig": f"{parts[0]}:transcript-differs", "theory": parts[0],
+                           "summary": f"the same API history gives different transcripts in configuration '{name}' and 'plain': {l!r} vs {b!r} ({len(diffs)} histories differ)",
+                           "replay": {"theory": parts[0], "history_text": parts[3] if len(parts) > 3 else "", "config": name}})
+    files, hits = scan_nondeterminism_sources()
+    for path, n, tok, line in hits[:10]:
+        violations.append({"sig": f"scan:{tok}:{os.path.basename(path)}", "summary": f"{path}:{n} uses `{tok}`: {line}",
+                           "replay": {"file": path, "line": n, "token": tok}})
+    cov = dict(res0)
+    cov.pop("violations", None)
+    cov["evaluations"] = len(base) * len(configs)
+    cov["distinct_nontrivial"] = len(set(l.split("\t")[2] for l in base))
+    cov["rule"] = ("every explored API history (BFS of the explorer, depth %s) is executed in %d process configurations; a case is a history, "
+                   "distinct_nontrivial = number of distinct transcripts (ids, all iterator outputs in order, roots) observed" % (depth, len(configs)))
+    cov["configurations"] = [c[0] for c in configs]
+    cov["histories_per_configuration"] = len(base)
+    cov["transcripts_compared"] = compared
+    cov["files_scanned"] = len(files)
+    cov["samples"] = [l.split("\t")[3] for l in base[len(base) // 2: len(base) // 2 + 3]] or ["(no history)"]
+    import shutil
+    shutil.rmtree(outdir, ignore_errors=True)
+    return common.finish(pid, tier, "exploration", cov, violations, t0,
+                         ["replaying a prefix inside the exploring process must reproduce its transcript (checked on every expansion)",
+                          "address-space layout, environment size, allocator settings and harness thread count are the varied dimensions; there are no threads in generated code or runtime, so the schedule dimension is empty",
+                          "the raw pointers of WBTreeMap::IterMut are exempt from the text scan: they are dereferenced, never compared or hashed"], seed)
+
+
+def replay_c20(pid, path):
+    print("C20 replays by re-running the quick configuration sweep")
+    return run_c20(pid, "quick", 0)
+
+
+register("C20", run_c20, replay_c20)
+
+
+# ---------------------------------------------------------------- C16: semi-naive plans
+def run_c16(pid, tier, seed):
+    t0 = time.time()
+    binary, infos = modelgen.build_models("k", modelgen.load_corpus("k"))
+    bad = [i for i in infos if not i["ok"]]
+    if bad:
+        raise common.MachineryError("corpus theories failed to build: " + "; ".join(i["name"] for i in bad))
+    res = common.run_engine(binary, [pid, "--tier", tier], timeout=6 * 3600)
+    return common.finish(pid, tier, "exploration", res, res.get("violations", []), t0,
+                         ["the flat premise and conclusions of every rule family are read from the comment the compiler emits above each rule function (the property's own observation point); the comment is cross-checked against the index fields the function reads",
+                          "rules with an empty premise are outside the quantifier (n = 0 atoms; documented in to_semi_naive as executed every iteration)",
+                          "the implicit functionality rule is compared up to the symmetry the property grants",
+                          "families whose premise involves an enum type are skipped (their elements cannot be created without a constructor)"], seed)
+
+
+register("C16", run_c16, replay_models)
